@@ -1,4 +1,6 @@
 # property id -> how bin/check runs it. level = evidence level (EVIDENCE.schema.json).
 CHECKS = {
+    "C01": dict(engine="e2_mediation", bins=["e2_mediation"], level="exploration", ns=True, prebuild=["prebuild-ebpf"], tools=["unshare", "ip", "clang"]),
+    "C03": dict(engine=[dict(exe="e1_rbac"), dict(exe="e2_mediation", ns=True)], bins=["e1_rbac", "e2_mediation"], level="exploration", prebuild=["prebuild-ebpf"], tools=["unshare", "ip", "clang"]),
     "C02": dict(engine="e1_rbac", bins=["e1_rbac"], level="exploration"),
 }
